@@ -59,6 +59,19 @@ func checkCompat(s []byte) (bad, exp, got string) {
 			return "StdLibCompatibleStringBytes/" + d.name, fmt.Sprintf("%q", append(prefix, want...)), fmt.Sprintf("%q", res)
 		}
 	}
+	// destinations that end in the first bytes of a multi-byte sequence (or in garbage): what is
+	// already in the destination is not part of the string, whatever it would combine to
+	if len(s) < 3 || (s[0] >= 0x80 && s[0] <= 0xBF) {
+		for _, pre := range []string{"\xe2\x82", "\xf0\x9f\x98", "\xc3", "ab\xe2", "\xff", "\xf0\x9f"} {
+			for _, spare := range []int{0, 16} {
+				dst := append(make([]byte, 0, len(pre)+spare), pre...)
+				res := rjson.StdLibCompatibleStringBytes(s, dst)
+				if !bytes.Equal(res, append([]byte(pre), want...)) {
+					return fmt.Sprintf("StdLibCompatibleStringBytes/destination-ends-in-%q/spare%d", pre, spare), fmt.Sprintf("%q", append([]byte(pre), want...)), fmt.Sprintf("%q", res)
+				}
+			}
+		}
+	}
 	// cross-check of the reference with encoding/json where the bytes can be embedded in a string
 	plain := true
 	for _, c := range s {
